@@ -555,6 +555,7 @@ func (c *Checked) checkDotErrorGroups(i int, op Op, g *DotGraph, byCat map[int]*
 			}
 		}
 	}
+	c.checkDotErrorEdges(i, g, byCat, accepted, inCluster)
 	if s.firstFail < 0 {
 		return
 	}
@@ -758,4 +759,92 @@ func assignEdges(es []DotEdge, singles, groups []LeafParam, idsOfKey map[Key]map
 		return nil
 	}
 	return out
+}
+
+// checkDotErrorEdges: the dependency edges of the constructors that are still
+// drawn in the picture of a failure. (a) A dependency whose provider is still
+// drawn (it failed too) keeps its edge: that edge is what explains the
+// failure. (b) An edge may end outside every cluster only at a value-group
+// node or at a key that no constructor provides at all: a leftover edge to the
+// result of a pruned, healthy constructor would read as "nobody provides it".
+func (c *Checked) checkDotErrorEdges(i int, g *DotGraph, byCat map[int]*dotCl, accepted func(cat int) *MCtor, inCluster map[string]int) {
+	m := c.M
+	diamonds := diamondsOf(g)
+	// node ids of the results still drawn, by key
+	drawn := map[Key]map[string]bool{}
+	for cat, x := range byCat {
+		n := accepted(cat)
+		if n == nil {
+			continue
+		}
+		var keys []Key
+		for _, r := range n.LR {
+			keys = append(keys, r.Keys...)
+		}
+		if len(keys) != len(x.nodes) {
+			return // reported elsewhere; positions cannot be trusted
+		}
+		rn := resultNodes(x.nodes, keys)
+		for j, k := range keys {
+			if drawn[k] == nil {
+				drawn[k] = map[string]bool{}
+			}
+			drawn[k][rn[j].ID] = true
+		}
+	}
+	providers := func(k Key) int {
+		n := 0
+		for _, sc := range m.S {
+			n += len(sc.Prov[k])
+		}
+		return n
+	}
+	providedAnywhere := func(k Key) bool { return providers(k) > 0 }
+	edgesFrom := map[string][]DotEdge{}
+	for _, e := range g.Edges {
+		edgesFrom[e.From] = append(edgesFrom[e.From], e)
+	}
+	for cat, x := range byCat {
+		n := accepted(cat)
+		if n == nil {
+			continue
+		}
+		outside, unprovided := 0, 0
+		for _, e := range edgesFrom[x.label] {
+			if _, in := inCluster[e.To]; in {
+				continue
+			}
+			if _, d := diamonds[e.To]; d {
+				continue
+			}
+			outside++
+		}
+		for _, p := range n.LP {
+			if p.Key.IsGroup() {
+				continue
+			}
+			if !providedAnywhere(p.Key) {
+				unprovided++
+				continue
+			}
+			// (the picture has one node per key whatever the scope: with the
+			// key provided in several scopes, pruning a healthy provider also
+			// removes the edges to its failed namesake; no claim then)
+			if ids := drawn[p.Key]; len(ids) > 0 && providers(p.Key) == 1 {
+				found := false
+				for _, e := range edgesFrom[x.label] {
+					if ids[e.To] {
+						found = true
+					}
+				}
+				if !found {
+					c.viol(i, "dot-error-edge-missing", fmt.Sprintf("Cat%d depends on %s, whose constructor is still drawn (it failed), but there is no edge to it", cat, p.Key), "C19")
+				}
+			}
+		}
+		c.probe("dot_error_edges_checked")
+		if outside > unprovided {
+			c.viol(i, "dot-error-edge-dangling", fmt.Sprintf("Cat%d has %d edges that end outside every cluster and at no group node, but only %d of its dependencies are provided by no constructor at all", cat, outside, unprovided), "C19")
+		}
+	}
 }
